@@ -32,6 +32,10 @@ def segment(rng, d):
     return s
 
 
+# URI prefixes in normal form (lower-case scheme and host, ASCII); authority-less schemes (urn:, info:) are left out because the
+# httpx test client refuses such Location values on its own side
+BASES = ["http://a.org/", "http://a.org/", "http://a.org/", "https://a.org/", "ftp://a.org/", "s3://bucket/"]
+
 class C17(Plugin):
     pid = "C17"
     entry = 17
@@ -51,7 +55,8 @@ class C17(Plugin):
             rng.shuffle(pool)
             nrec = rng.randint(1, 4)
             recs = []
-            us = ["http://a.org/" + str(i) + rng.choice(["/", "#", "_", ""]) for i in range(8)]
+            # any scheme with an authority (a resolver redirects to whatever the record says): every URI prefix of a case draws its own
+            us = [rng.choice(BASES) + str(i) + rng.choice(["/", "#", "_", ""]) for i in range(8)]
             rng.shuffle(us)
             for _ in range(nrec):
                 p = pool.pop()
@@ -115,7 +120,7 @@ class C17(Plugin):
     def in_domain(self, case):
         # URI prefixes stay lower-case ASCII http URLs: Werkzeug rewrites the Location header (case of scheme and host, IRI -> URI
         # quoting) into an equivalent URI, which is HTTP-level normalisation and not what C17 is about (see DESIGN, scoping)
-        return all(u.startswith("http://a.org/") for r in case[0] for u in [r[1], *r[3]])
+        return all(any(u.startswith(b) for b in BASES) for r in case[0] for u in [r[1], *r[3]])
 
     def nontrivial(self, case, obs):
         recs, d, paths = case[:3]
